@@ -1,6 +1,75 @@
-/- Props/C15.lean — placeholder until Proofs/DepGraph*.lean land -/
-import FerretVerif.Model.DepGraph
+/-
+  Props/C15.lean — C15: import graphs — every cycle is rejected, every DAG builds, under all schedules.
+
+  About Model/DepGraph.lean (transcription of AddDependency / hasCyclePath / ComputeTopologicalOrder in
+  internal/context_v2/context.go and of the processModule/parseModule scheduling skeleton of
+  internal/pipeline/parse.go as a transition system whose atomic steps are the mutex-protected AddDependency
+  call and the sync.Map LoadOrStore).  Tied to the Go code on every run by checks/c15.py.
+-/
+import FerretVerif.Proofs.DepGraph
+import FerretVerif.Proofs.DepTopo
+import FerretVerif.Proofs.DepSched
+
 namespace FerretVerif.C15
 open FerretVerif.DepGraph
-theorem insertEdge_new : insertEdge [] 1 2 = [(1, [2])] := by decide
+
+/-- the DFS with a shared visited set decides reachability (fuel `nodes + 2` always suffices) -/
+theorem dfs_correct (g : Graph) (a b : Nat) : hasPath g a b = true ↔ Reach g a b := DepGraph.dfs_correct g a b
+
+/-- an edge is rejected exactly when it would close a cycle; a self-import is always rejected -/
+theorem rejected_iff_closes_cycle (g : Graph) (a b : Nat) : addDep g a b = none ↔ Reach g b a := addDep_none_iff g a b
+theorem self_import_rejected (g : Graph) (a : Nat) : addDep g a a = none := addDep_self g a
+
+/-- accepted edges keep the graph acyclic -/
+theorem acyclic_invariant {g g' : Graph} {a b : Nat} (hac : Acyclic g) (h : addDep g a b = some g') : Acyclic g' :=
+  DepGraph.acyclic_invariant hac h
+
+/-- WHATEVER the order (and repetition) in which the import edges arrive: a cyclic edge set gets at least one
+    rejection … -/
+theorem cycle_always_reported (E : List (Nat × Nat)) (hc : ∃ a b, (a, b) ∈ E ∧ ReachE E b a) :
+    (addAll [] E).2.contains false = true := DepGraph.cycle_always_reported E hc
+/-- … an acyclic one gets none … -/
+theorem dag_never_reported (E : List (Nat × Nat)) (hE : EAcyclic E) : (addAll [] E).2.all id = true :=
+  DepGraph.dag_never_reported E hE
+/-- … and the verdict depends only on the edge SET -/
+theorem verdict_order_independent (E E' : List (Nat × Nat)) (h : ∀ e, e ∈ E ↔ e ∈ E') :
+    (addAll [] E).2.contains false = (addAll [] E').2.contains false := DepGraph.verdict_order_independent E E' h
+
+/-- scheduler, any interleaving `is`: every module is scheduled at most once, only reachable modules are … -/
+theorem parsed_exactly_once (p : Project) (entry : Nat) (is : List Nat) :
+    let s := runSched p (initSched p entry) is
+    s.parsed.Nodup ∧ (∀ x, x ∈ s.seen ↔ x ∈ s.parsed) ∧ (∀ x, x ∈ s.parsed → Reach p entry x) := parsed_nodup p entry is
+/-- … a live task can always step (no deadlock) and every schedule that keeps stepping live tasks ends with no
+    task left (the WaitGroup reaches zero) … -/
+theorem no_deadlock (p : Project) (s : Sched) (i : Nat) (hi : i < s.tasks.length) : ∃ s', step p s i = some s' :=
+  step_enabled p s i hi
+theorem every_schedule_terminates (p : Project) (entry : Nat) (is : List Nat)
+    (h : schedMeasure p (initSched p entry) ≤ liveSteps p (initSched p entry) is) :
+    (runSched p (initSched p entry) is).tasks = [] := run_complete_of_liveSteps p entry is h
+/-- … the shared graph is acyclic in every reachable state … -/
+theorem graph_acyclic_in_every_state (p : Project) (entry : Nat) (is : List Nat) :
+    Acyclic (runSched p (initSched p entry) is).graph ∧ NoDupKeys (runSched p (initSched p entry) is).graph :=
+  graph_acyclic_invariant p entry is
+/-- … and a completed run reports a circular import IFF the modules reachable from the entry contain a cycle,
+    whatever the interleaving; all completed runs parse the same set of modules -/
+theorem verdict_schedule_independent (p : Project) (entry : Nat) (is : List Nat)
+    (hdone : (runSched p (initSched p entry) is).tasks = []) :
+    (runSched p (initSched p entry) is).errors ≠ [] ↔ ∃ a b, Reach p entry a ∧ Edge p a b ∧ Reach p b a :=
+  DepGraph.verdict_schedule_independent p entry is hdone
+theorem all_schedules_agree (p : Project) (entry : Nat) (is is' : List Nat)
+    (hdone : (runSched p (initSched p entry) is).tasks = []) (hdone' : (runSched p (initSched p entry) is').tasks = []) :
+    ((runSched p (initSched p entry) is).errors = [] ↔ (runSched p (initSched p entry) is').errors = []) ∧
+    ∀ x, x ∈ (runSched p (initSched p entry) is).parsed ↔ x ∈ (runSched p (initSched p entry) is').parsed :=
+  verdict_same_for_all_schedules p entry is is' hdone hdone'
+
+/-- Kahn's algorithm on an acyclic graph: every module appears exactly once and every dependency precedes its
+    importer … -/
+theorem topo_sound (g : Graph) (mods : List Nat) (hac : Acyclic g) (hmods : mods.Nodup) (hnodes : ∀ x, x ∈ nodes g → x ∈ mods) :
+    (topo g mods).Nodup ∧ (topo g mods).Perm mods ∧
+      ∀ a b, Edge g a b → (topo g mods).idxOf b < (topo g mods).idxOf a ∧
+        ∃ l1 l2 l3, topo g mods = l1 ++ b :: l2 ++ a :: l3 := DepGraph.topo_sound g mods hac hmods hnodes
+/-- … and the order does not depend on Go's map iteration order -/
+theorem topo_iteration_invariant {g g' : Graph} {mods mods' : List Nat} (hg : g.Perm g') (hnd : NoDupKeys g)
+    (hm : mods.Perm mods') : topo g' mods' = topo g mods := topo_perm_invariant hg hnd hm
+
 end FerretVerif.C15
